@@ -4,9 +4,9 @@
 //   - spawns:   every `go` statement (package, enclosing function, callee, inside a loop?)
 //   - defers:   the deferred calls of every function that has any, in source order
 //   - methods:  for every method of the discipline types: exported?, receiver fields
-//               written, receiver fields read, receiver methods called
+//     written, receiver fields read, receiver methods called
 //   - selects:  for every function, each `select` statement: its communication cases and
-//               whether each case body returns
+//     whether each case body returns
 //   - ctors:    for every constructor (New*), the sequence of top-level statement kinds
 //   - spawners: the same for every other function with a top-level `go` statement
 //   - chanmakes: every make(chan …) of a constructor: (pkg, constructor, target, capacity text)
@@ -56,7 +56,9 @@ func text(n ast.Node) string {
 	return s
 }
 
-func lstr(s string) string { return "\"" + strings.ReplaceAll(strings.ReplaceAll(s, "\\", "\\\\"), "\"", "\\\"") + "\"" }
+func lstr(s string) string {
+	return "\"" + strings.ReplaceAll(strings.ReplaceAll(s, "\\", "\\\\"), "\"", "\\\"") + "\""
+}
 
 func llist(l []string) string {
 	q := make([]string, len(l))
